@@ -492,3 +492,35 @@ package scanner
 //@   maypanic
 //@   modifies *
 //@   ensures isNameByte(c) ==> normal && result == scanContinue && s.step == stateKeyShortcut
+
+// ---- C13: `//` opens an inline annotation, `/*` a multi-line one; after the rule
+// object of an inline annotation only blanks, `- note`, a user comment or the line end
+// (LF or CR alike) may follow ----
+//@ func stateAnyAnnotationStart(s, c)
+//@   props C13
+//@   requires s != nil && 1 <= s.index && s.index <= len(s.data)
+//@   maypanic
+//@   modifies s.step, s.annotation, s.finds, s.finds[*]
+//@   ensures panics <==> !(c == '/' || c == '*')
+//@   ensures panics ==> typeis(pv, errors.DocumentError)
+//@   ensures normal ==> result == scanContinue && len(s.finds) == old(len(s.finds)) + 1
+//@   ensures normal && c == '/' ==> s.annotation == annotationInline && s.finds[old(len(s.finds))] == lexeme.InlineAnnotationBegin && s.step == stateInlineAnnotation
+//@   ensures normal && c == '*' ==> s.annotation == annotationMultiLine && s.finds[old(len(s.finds))] == lexeme.MultiLineAnnotationBegin && s.step == stateMultiLineAnnotation
+//@ func stateInlineAnnotationStart(s, c)
+//@   props C13
+//@   requires s != nil && 1 <= s.index && s.index <= len(s.data)
+//@   maypanic
+//@   modifies s.step, s.annotation, s.finds, s.finds[*]
+//@   ensures panics <==> c != '/'
+//@   ensures normal ==> result == scanContinue && s.annotation == annotationInline && len(s.finds) == old(len(s.finds)) + 1 && s.finds[old(len(s.finds))] == lexeme.InlineAnnotationBegin && s.step == stateInlineAnnotation
+//@ func stateInlineAnnotationTextPrefix(s, c)
+//@   props C13
+//@   requires s != nil && s.returnToStep != nil && s.stack != nil && 1 <= s.index && s.index <= len(s.data)
+//@   maypanic
+//@   modifies s.step, s.annotation, s.finds, s.finds[*], s.returnToStep.vals, s.returnToStep.vals[*]
+//@   ensures !(isBlank(c) || c == '-' || ((s.annotation == annotationNone || s.annotation == annotationInline) && c == '#')) ==> panics && typeis(pv, errors.DocumentError)
+//@   ensures normal ==> result == scanContinue
+//@   ensures normal && isSpace(c) ==> s.step == old(s.step) && len(s.finds) == old(len(s.finds)) && s.annotation == old(s.annotation)
+//@   ensures normal && isNewLine(c) ==> len(s.finds) == old(len(s.finds)) + 2 && s.finds[old(len(s.finds))] == lexeme.InlineAnnotationEnd && s.finds[old(len(s.finds)) + 1] == lexeme.NewLine
+//@           && len(s.returnToStep.vals) == old(len(s.returnToStep.vals)) - 1 && s.step == old(s.returnToStep.vals[len(s.returnToStep.vals) - 1]) && (s.annotation == annotationNone || s.annotation == annotationMultiLine)
+//@   ensures normal && c == '-' ==> s.step == stateInlineAnnotationTextPrefix2 && len(s.finds) == old(len(s.finds))
